@@ -80,6 +80,31 @@ def apply(S, ev: dict, mag: int = 0):
             r = ttb.sptensor(r.subs.copy(), r.vals * f, r.shape)
         else:
             r = ttb.tensor(r.data * f)
+    lay = bind.get_layout()
+    # two more presentations that leave the specified result unchanged (all factors are powers of two: exact)
+    if op in ("mul", "rmul") and rv["kind"] == "scalar" and lay in ("swapped", "strided") and mag:
+        # (S 2^-40) * (c 2^-40) = (S c) 2^-80: small products are entries like any other
+        S2 = ttb.sptensor(S.subs.copy(), S.vals.astype(float) * 2.0 ** -40, S.shape)
+        c2 = float(r) * 2.0 ** -40
+        with np.errstate(all="ignore"):
+            out = S2 * c2 if op == "mul" else c2 * S2
+        if isinstance(out, ttb.sptensor):
+            return ttb.sptensor(out.subs.copy(), out.vals * 2.0 ** 80, out.shape) if out.nnz else out
+        return out
+    if op in ("add", "sub") and rv["kind"] == "dense" and lay in ("grown", "default") and mag and \
+            np.all(r.data == np.round(r.data)):
+        # S = S/2 + S/2: the sparse operand holds halves, the dense operand is stored as integers; the second half is
+        # added by the harness in numpy
+        half = ttb.sptensor(S.subs.copy(), S.vals.astype(float) * 0.5, S.shape)
+        Tint = ttb.tensor(np.round(r.data).astype(np.int64))
+        with np.errstate(all="ignore"):
+            out = PYOP[op](half, Tint)
+        if isinstance(out, ttb.tensor):
+            dense_half = np.zeros(S.shape)
+            if half.nnz:
+                dense_half[tuple(half.subs.T)] = half.vals[:, 0]
+            return ttb.tensor(out.data.astype(float) + dense_half)
+        return out
     with np.errstate(all="ignore"):
         if op in PYOP:
             return PYOP[op](S, r)
